@@ -24,7 +24,9 @@ static long emitted = 0;
 static vector<string>* LOG = 0;
 // hook H4: cells that Solver::check_sol discards after a certification attempt are noted in the log ("X~cell"):
 // the replay ignores the note (such a cell must still be justified), it only names the call site of a rejected step
-namespace ibex { namespace verif { extern void (*solver_discard_hook)(const IntervalVector&, const IntervalVector&); } }
+namespace ibex { namespace verif { extern void (*solver_discard_hook)(const IntervalVector&, const IntervalVector&); extern void (*solver_replace_hook)(const IntervalVector&, const IntervalVector&); } }
+static vector<IntervalVector> REPLACED;     // cells replaced by the existence box of a certified solution / boundary box (hook H4b)
+static void note_replace(const IntervalVector& cell, const IntervalVector& ex) { if (REPLACED.size() < 100000 && !cell.is_subset(ex)) REPLACED.push_back(cell); }
 static vector<IntervalVector> DISCARDS;     // cells discarded by check_sol during the current run (also for runs without log)
 static void note_discard(const IntervalVector& cell, const IntervalVector&) { if (LOG) LOG->push_back("X~" + tok(cell)); if (DISCARDS.size() < 100000) DISCARDS.push_back(cell); }
 struct LogCtc : public Ctc {
@@ -113,13 +115,26 @@ static void report(Rng& r, Problem& P, const IntervalVector& root, const CovSolv
   if (!C06_LINES)   // (completeness is property C05)
   for (auto& q : pts) if (root.contains(q)) {
     // the cells discarded by check_sol (hook H4) that contain the point: names the call site if the point is lost
-    string notes; int nn = 0; for (auto& c : DISCARDS) if (c.contains(q) && nn < 4) { if (nn++) notes += "|"; notes += tok(c); } if (!nn) notes = "-";
+    string notes; int nn = 0; for (auto& c : DISCARDS) if (c.contains(q) && nn < 4) { if (nn++) notes += "|"; notes += tok(c); }
+    for (auto& c : REPLACED) if (c.contains(q) && nn < 6) { if (nn++) notes += "|"; notes += "R" + tok(c); }
+    if (!nn) notes = "-";
     EMIT("solvept %s %s %s %s %s run%ld => 1\n", P.dags.c_str(), P.specs.c_str(), ptok(q).c_str(), pv.c_str(), notes.c_str(), RUN_ID); }
   // (a sample of at most 25 boxes of each kind)
   { size_t N = d.nb_inner(), step = N > 25 ? N / 25 : 1; for (size_t i = 0; i < N; i += step) if (P.m == 0) EMIT("solveinner %s %s %s => 1\n", P.dags.c_str(), P.specs.c_str(), tok(d.inner(i)).c_str()); }
   { size_t N = d.nb_unknown(), step = N > 25 ? N / 25 : 1; for (size_t i = 0; i < N; i += step) EMIT("solveunknown %s %s => 1\n", tok(d.unknown(i)).c_str(), vtok(eps_min).c_str()); }
   bool interrupted = st == Solver::CELL_OVERFLOW || st == Solver::TIME_OUT;
   EMIT("solvestatus %s %zu %zu %zu %zu %zu %d => 1\n", status_name(st), P.m > 0 ? d.nb_solution() : (size_t)0, d.nb_boundary(), d.nb_unknown(), d.nb_pending(), d.nb_inner(), interrupted ? 1 : 0);
+}
+
+
+// The box given to solve() need not be the declared domain of the variables (System::box): in part of the runs the declared
+// domain is made smaller than / different from / larger than the box that is searched (the search box `root` is unchanged)
+static void redeclare_domain(Rng& r, System& sys, const IntervalVector& root) {
+  int k = r.below(100);
+  if (k < 25) { for (int i = 0; i < root.size(); i++) { double w = root[i].diam(); if (!(w > 0) || w == POS_INFINITY) continue;
+                  double a = root[i].lb() + w * r.range(0, 3) / 8.0, b = root[i].ub() - w * r.range(0, 3) / 8.0; if (a <= b) sys.box[i] = Interval(a, b); } }
+  else if (k < 33) { for (int i = 0; i < root.size(); i++) { double w = root[i].diam(); if (!(w > 0) || w == POS_INFINITY) continue; sys.box[i] = Interval(root[i].lb() + w / 2, root[i].ub() + w / 4); } }
+  else if (k < 45) { for (int i = 0; i < root.size(); i++) sys.box[i] = Interval(root[i].lb() - r.range(0, 2), root[i].ub() + r.range(0, 2)); }
 }
 
 // ---------------------------------------------------------------------------------------------------
@@ -130,7 +145,7 @@ struct Config { int ctc_kind; bool newton; int bsc_kind; int buf_kind; Vector ep
 struct Run {
   CtcHC4* hc4; CtcAcid* acid; CtcCompo* compo; CtcNewton* newton; CtcCompo* withnewton; LogCtc* lctc; Bsc* bsc;
   CellStack stack; CellList list; LogBuffer* lbuf; Solver* s; vector<string> log; Solver::Status st;
-  Run(Problem& P, const Config& c, const CovSolverData* from, long cell_limit, double time_limit) {
+  Run(Problem& P, const Config& c, const CovSolverData* from, long cell_limit, double time_limit, const IntervalVector& root) {
     System& sys = *P.sys;
     hc4 = new CtcHC4(sys, 0.01); acid = new CtcAcid(sys, *hc4); compo = new CtcCompo(*hc4, *acid);
     Ctc* base = c.ctc_kind == 0 ? (Ctc*)hc4 : (Ctc*)compo;
@@ -143,7 +158,7 @@ struct Run {
     s->cell_limit = cell_limit; s->time_limit = time_limit; s->trace = 0;
     RNG::srand(1);
     LOG = &log;
-    st = from ? s->solve(*from) : s->solve(sys.box);
+    st = from ? s->solve(*from) : s->solve(root);
     LOG = 0;
     check_round_up("solver");
   }
@@ -155,14 +170,14 @@ static void wl_resume(Rng& r, long count, bool full, const string& file) {
   for (long it = 0; it < count; it++) {
     try {
       Problem P; bool okp = r.coin(35) ? make_singular(r, P) : make_problem(r, P); if (!okp) continue;
-      System& sys = *P.sys; IntervalVector root = sys.box;
+      System& sys = *P.sys; IntervalVector root = sys.box; redeclare_domain(r, sys, root);
       Config c; double e = r.coin() ? 0.125 : 0.03125;
       c.eps_min = Vector(P.n, e); c.eps_max = Vector(P.n, r.coin(80) ? POS_INFINITY : 1.0);
       c.ctc_kind = r.coin(70) ? 0 : 1; c.newton = (P.m == P.n && P.k == 0 && r.coin(40)); c.bsc_kind = r.below(3); c.buf_kind = r.coin(70) ? 0 : 1;
       // the uninterrupted run: number of cells N
       long maxN = full ? 600 : 160;
       long N;
-      { Run u(P, c, 0, maxN, 60); N = (long)u.s->get_nb_cells(); if (u.st == Solver::CELL_OVERFLOW || u.st == Solver::TIME_OUT) { delete P.sys; continue; } }
+      { Run u(P, c, 0, maxN, 60, root); N = (long)u.s->get_nb_cells(); if (u.st == Solver::CELL_OVERFLOW || u.st == Solver::TIME_OUT) { delete P.sys; continue; } }
       // interruption points: every k when the search is small (the limit is reached after a bisection: odd counts),
       // otherwise a sample that keeps the first and the last ones
       vector<long> ks;
@@ -171,9 +186,9 @@ static void wl_resume(Rng& r, long count, bool full, const string& file) {
       if ((long)ks.size() > maxk) { vector<long> sel; for (long k : ks) if (k <= 3 || k >= N - 8 || r.coin((int)(100 * maxk / ks.size()))) sel.push_back(k); ks = sel; }
       ks.push_back(-2);   // interruption by the time limit (non-deterministic point)
       for (long k : ks) {
-        RUN_ID++; DISCARDS.clear();   // (one id for the whole chain of interrupted / resumed runs: a lost solution shows at the end of the chain)
+        RUN_ID++; DISCARDS.clear(); REPLACED.clear();   // (one id for the whole chain of interrupted / resumed runs: a lost solution shows at the end of the chain)
         int links = r.coin(25) ? (int)r.range(2, 3) : 1;
-        Run* cur = (k == -2) ? new Run(P, c, 0, -1, 1e-4 * r.range(1, 20)) : new Run(P, c, 0, k, 60);
+        Run* cur = (k == -2) ? new Run(P, c, 0, -1, 1e-4 * r.range(1, 20), root) : new Run(P, c, 0, k, 60, root);
         if (cur->log.size() < 3000) {
           string pv = paving_token(cur->s->get_data(), P.n, P.m);
           EMIT("solvelog %s %s %s %s %s %s run%ld => %s\n", P.dags.c_str(), P.specs.c_str(), tok(root).c_str(), cur->events().c_str(), pv.c_str(), vtok(c.eps_min).c_str(), RUN_ID, status_name(cur->st));
@@ -186,7 +201,7 @@ static void wl_resume(Rng& r, long count, bool full, const string& file) {
           string loaded = items_token(data, P.n, P.m);
           EMIT("resumeload %s => %s\n", saved.c_str(), loaded.c_str());
           long k2 = (l + 1 < links) ? r.range(1, (int)std::max(2L, N / 2)) : -1;
-          cur = new Run(P, c, &data, k2, 60);
+          cur = new Run(P, c, &data, k2, 60, root);
           if (cur->log.size() < 8000)
             EMIT("resumelog %s %s %s %s %s %s run%ld => %s\n", P.dags.c_str(), P.specs.c_str(), loaded.c_str(), cur->events().c_str(),
                  items_token(cur->s->get_data(), P.n, P.m).c_str(), vtok(c.eps_min).c_str(), RUN_ID, status_name(cur->st));
@@ -203,7 +218,7 @@ static void wl_resume(Rng& r, long count, bool full, const string& file) {
 }
 
 int main(int argc, char** argv) {
-  ibex::verif::solver_discard_hook = note_discard;
+  ibex::verif::solver_discard_hook = note_discard; ibex::verif::solver_replace_hook = note_replace;
   string wl = argc > 1 ? argv[1] : "c05";
   uint64_t seed = argc > 2 ? strtoull(argv[2], 0, 10) : 1;
   long n = argc > 3 ? atol(argv[3]) : 50;
@@ -227,7 +242,7 @@ int main(int argc, char** argv) {
       if (C06_LINES && r.coin(45)) { int fam = r.below(100); if (!(fam < 45 ? make_multi(r, P) : fam < 70 ? make_singular(r, P) : make_param(r, P))) continue; }
       else if (!C06_LINES && r.coin(25)) { if (!make_touch(r, P)) continue; }
       else if (!make_problem(r, P)) continue;
-      System& sys = *P.sys; IntervalVector root = sys.box;
+      System& sys = *P.sys; IntervalVector root = sys.box; redeclare_domain(r, sys, root);
       double e = r.coin() ? 0.125 : (r.coin() ? 1e-3 : 0.03125);
       Vector eps_min(P.n, e); if (r.coin(30)) for (int i = 0; i < P.n; i++) eps_min[i] = r.coin() ? e : e * 4;
       Vector eps_max(P.n, r.coin(70) ? POS_INFINITY : 1.0);
@@ -247,8 +262,8 @@ int main(int argc, char** argv) {
         if (r.coin(35)) s.cell_limit = r.range(1, 60);
         else if (P.m < P.n) s.cell_limit = r.range(100, 400);   // pavings of sets: keep the log small
         else s.cell_limit = 3000;
-        s.time_limit = 20; s.trace = 0;
-        vector<string> log; LOG = &log; RUN_ID++; DISCARDS.clear();
+        s.time_limit = r.coin(12) ? 1e-4 * r.range(1, 20) : 20.0; s.trace = 0;   // (some searches are stopped by the time limit: the buffer must be flushed into pending boxes)
+        vector<string> log; LOG = &log; RUN_ID++; DISCARDS.clear(); REPLACED.clear();
         Solver::Status st = s.solve(root);
         LOG = 0;
         check_round_up("solver");
@@ -260,7 +275,8 @@ int main(int argc, char** argv) {
         try {
           DefaultSolver ds(sys, eps_min, POS_INFINITY, r.coin(), 1.0);
           ds.time_limit = 20; ds.cell_limit = P.m < P.n ? 300 : 2000;
-          RUN_ID++; DISCARDS.clear();
+          RUN_ID++; DISCARDS.clear(); REPLACED.clear();
+          if (getenv("H_SOLVER_TRACE")) { std::cerr << "RUN " << RUN_ID << " default solver root=" << root << " declared=" << sys.box << " eps_min=" << eps_min << "\n" << sys << std::endl; }
           Solver::Status st = ds.solve(root);
           EMIT("defaultsolver run => %s\n", status_name(st));
           vector<string> nolog; report(r, P, root, ds.get_data(), st, nolog, eps_min, false);
